@@ -954,6 +954,24 @@ func (m *Nitro) StoreToDisk(dir string, snap *Snapshot, concurr int, itmCallback
 		}
 	}()
 
+	// closeWriters flushes and closes the given files and reports the first
+	// failure; closed entries are cleared so that nothing closes them again.
+	closeWriters := func(ws []FileWriter) (cerr error) {
+		for i, w := range ws {
+			if w != nil {
+				if e := w.Close(); e != nil && cerr == nil {
+					cerr = e
+				}
+				ws[i] = nil
+			}
+		}
+		return
+	}
+
+	// finishDelta, while non-nil, ends delta processing and completes the
+	// delta files. It has to run before the main manifest is written.
+	var finishDelta func() error
+
 	for shard := 0; shard < shards; shard++ {
 		w := m.newFileWriter(m.fileType)
 		file := fmt.Sprintf("shard-%d", shard)
@@ -1009,18 +1027,35 @@ func (m *Nitro) StoreToDisk(dir string, snap *Snapshot, concurr int, itmCallback
 		fakeSnap.refCount = 1
 		snap = &fakeSnap
 
+		finishDelta = func() error {
+			finishDelta = nil
+			// The terminate handshake also reports the GC workers' write errors
+			if e := m.changeDeltaWrState(dwStateTerminate, nil, nil); e != nil {
+				return e
+			}
+			for id, dwr := range deltaWriters {
+				deltaChecksums[id] = dwr.Checksum()
+			}
+			if e := closeWriters(deltaWriters); e != nil {
+				return e
+			}
+			bs, _ := json.Marshal(deltaFiles)
+			e := ioutil.WriteFile(filepath.Join(deltadir, "files.json"), bs, 0660)
+			verifYield(122, 3) // verif: delta files.json written
+			if e == nil {
+				bs, _ = json.Marshal(deltaChecksums)
+				e = ioutil.WriteFile(filepath.Join(deltadir, "checksums.json"), bs, 0660)
+				verifYield(122, 4) // verif: delta checksums.json written
+			}
+			return e
+		}
+
 		defer func() {
-			if err = m.changeDeltaWrState(dwStateTerminate, nil, nil); err == nil {
-				bs, _ := json.Marshal(deltaFiles)
-				err = ioutil.WriteFile(filepath.Join(deltadir, "files.json"), bs, 0660)
-				verifYield(122, 3) // verif: delta files.json written
-				if err == nil {
-					for id, dwr := range deltaWriters {
-						deltaChecksums[id] = dwr.Checksum()
-					}
-					bs, _ = json.Marshal(deltaChecksums)
-					err = ioutil.WriteFile(filepath.Join(deltadir, "checksums.json"), bs, 0660)
-					verifYield(122, 4) // verif: delta checksums.json written
+			// Failed backup: the GC workers still have to leave delta mode,
+			// but the failure that got us here must stay the result.
+			if finishDelta != nil {
+				if e := m.changeDeltaWrState(dwStateTerminate, nil, nil); e != nil && err == nil {
+					err = e
 				}
 			}
 		}()
@@ -1048,16 +1083,27 @@ func (m *Nitro) StoreToDisk(dir string, snap *Snapshot, concurr int, itmCallback
 	if err = ioutil.WriteFile(filepath.Join(manifestdir, "nitro.json"), manifest, 0660); err == nil {
 		verifYield(122, 0) // verif: nitro.json written
 		if err = m.Visitor(snap, visitorCallback, shards, concurr); err == nil {
-			bs, _ := json.Marshal(files)
-			err = ioutil.WriteFile(filepath.Join(datadir, "files.json"), bs, 0660)
-			verifYield(122, 1) // verif: files.json written
+			if finishDelta != nil {
+				err = finishDelta()
+			}
 			if err == nil {
 				for id, wr := range writers {
 					checksums[id] = wr.Checksum()
 				}
-				bs, _ = json.Marshal(checksums)
+				// Everything has to be on disk before the manifest declares
+				// the backup complete: a flush or close that fails here is a
+				// failed backup.
+				err = closeWriters(writers)
+			}
+			if err == nil {
+				bs, _ := json.Marshal(checksums)
 				err = ioutil.WriteFile(filepath.Join(datadir, "checksums.json"), bs, 0660)
 				verifYield(122, 2) // verif: checksums.json written
+			}
+			if err == nil {
+				bs, _ := json.Marshal(files)
+				err = ioutil.WriteFile(filepath.Join(datadir, "files.json"), bs, 0660)
+				verifYield(122, 1) // verif: files.json written
 			}
 		}
 	}
